@@ -16,9 +16,12 @@ LEVEL_TEXT = ("Partial. Unbounded proof: for every element tree (any depth and w
               "text in its place; printed attribute values contain only XML characters and clean values are unchanged; "
               "printed names contain only name characters; for every string pool chunk without styles - UTF-16 or UTF-8, any "
               "number of strings of valid code points, supplementary characters, one- and two-unit length prefixes, any "
-              "padding - parsing the chunk and asking for string i returns exactly the i-th string. Not proved: that the "
-              "other byte layers (chunk headers, resource map, the chunk loop, attribute records) deliver the events of the "
-              "encoded document - they are modelled and compared with the code, and with the document description, on every run.")
+              "padding - parsing the chunk and asking for string i returns exactly the i-th string; every node chunk written at "
+              "any position of any buffer - element start with any number of 20-byte attribute records, element end, text, "
+              "namespace start and end, and the resource map - is decoded to exactly its event (or state change) and the "
+              "parser moves to the end of the chunk. Not proved: the composition of these layers with the name and value "
+              "resolution into one statement about whole documents (strings resolved through the pool, namespace map, "
+              "typed values) - that is compared with the code, and with the document description, on every run.")
 LEVEL_NOTE = ("Trusted: Coq kernel; coq/Axml/PoolModel.v (StringBlock; malformed UTF-8 outside the model), "
               "coq/Axml/AxmlModel.v (AXMLParser/AXMLPrinter; names restricted to ASCII because of str.isalpha, comments and a "
               "second root outside the model, the namespace map as 'last declaration of a prefix wins', lxml's Element as a "
